@@ -128,11 +128,11 @@ theorem loopBody_cap (k k') (hk : CapK k k') : CapK (loopBody k) (loopBody k') :
   cases heoe : endOfExpression s.m with
   | mk b mm =>
     cases b
-    · simp only [map_bind]
-      refine CapRel.bind (CapRel.refl _) (fun it => ?_)
-      have ho : overLimit (heapState s).cfg.maxIterations it = overLimit s.cfg.maxIterations it := rfl
+    · simp only []
+      have ho : overLimit (heapState s).cfg.maxIterations (heapState s).iteration =
+          overLimit s.cfg.maxIterations s.iteration := rfl
       rw [ho]
-      cases overLimit s.cfg.maxIterations it with
+      cases overLimit s.cfg.maxIterations s.iteration with
       | true => right; rfl
       | false =>
         simp only [map_bind]
